@@ -22,11 +22,11 @@ import (
 var c16Universe = []string{"", "a", "aa", "ab", "b", "b\xff", "\x00", "\xff\xff\xff", "key-000001", "key-000002", "a-very-long-key-with-many-bytes-0123456789", "c"}
 
 type c16Task struct {
-	Kind string `json:"kind"` // bloom | big
-	Bits int    `json:"bits"`
-	From int    `json:"from"`
-	To   int    `json:"to"`
-	N    int    `json:"n"`
+	Kind string   `json:"kind"` // bloom | big
+	Bits int      `json:"bits"`
+	From int      `json:"from"`
+	To   int      `json:"to"`
+	N    int      `json:"n"`
 	Seq  *seqTask `json:"seq,omitempty"`
 }
 
@@ -173,8 +173,8 @@ func init() {
 		Level: "model_checking",
 		Worker: func(task []byte) []byte {
 			var probe struct {
-				Kind string `json:"kind"`
-				Cfg  string `json:"cfg"`
+				Kind string   `json:"kind"`
+				Cfg  string   `json:"cfg"`
 				Grid *c13Grid `json:"grid"`
 			}
 			json.Unmarshal(task, &probe)
